@@ -1,4 +1,5 @@
 import Moclo.Proofs.Search
+import Moclo.Proofs.Priority
 import Moclo.Tables.Lettermap
 /-!
 # C16 — DNA pattern search has exact IUPAC, circular and group-extraction semantics
@@ -59,12 +60,42 @@ theorem group_is_matched_text (w : Word) (a b : Nat) (hab : a ≤ b) (hb : b < 2
     (hlen : b - a ≤ w.length) : group w a b = ((w ++ w).drop a).take (b - a) :=
   group_spec w a b hab hb hlen
 
+/-- **which fit is reported when several exist at the leftmost start**: the one of highest priority in the
+order of Python's backtracking `re` — every wildcard run, in pattern order, takes the most preferred length
+(longest if greedy, shortest if lazy) for which the rest of the pattern still fits; that fit is unique, and the
+reported marks are the start, its group boundaries and its end (relative to the start of the text) -/
+theorem search_priority {p : Pat} {w : Word} {c : Bool} {pos : Nat} {ep : Option Nat} {m : Match}
+    (h : search p w c pos ep = some m) :
+    ∃ ms e, Best p (textAt w c m.start) 0 ms e ∧ m.marks = m.start :: ((ms ++ [e]).map (· + m.start)) ∧
+      ∀ ms' e', Best p (textAt w c m.start) 0 ms' e' → ms' = ms ∧ e' = e := by
+  obtain ⟨i, rel, _, _, hrel, hmarks, _⟩ := search_spec h
+  have hs : m.start = i := by simp [Match.start, hmarks]
+  rw [hs]
+  obtain ⟨ms, e, hb, hr⟩ := matchToks_best p (textAt w c i) 0 [] rel hrel
+  refine ⟨ms, e, hb, ?_, fun ms' e' hb' => hb'.unique hb⟩
+  rw [hmarks, hr]
+  simp
+
+/-- conversely the anchored matcher finds the fit of highest priority whenever the pattern fits at all -/
+theorem matcher_finds_best {p : Pat} {xs : Word} {ms : List Nat} {e : Nat} (h : Best p xs 0 ms e) :
+    relMatch p xs = some (e :: ms.reverse) := by
+  have := matchToks_of_best [] h
+  simpa [relMatch] using this
+
 /-! non-vacuity: the D1 witness — `AA(NN)` on `TGCAGCATAAG` searched circularly matches at 8 and group 1,
 spanning the origin, is `GT` (the pinned code returned `TG`). -/
 example :
     let w : Word := [.T,.G,.C,.A,.G,.C,.A,.T,.A,.A,.G].map (fun n => ⟨n, false⟩)
     let p : Pat := [.cls .A, .cls .A, .gopen, .cls .N, .cls .N, .gclose]
     (search p w true).map (fun m => (m.marks, (m.group w 1).map (·.nt))) = some ([8, 10, 12, 12], [.G, .T]) := by
+  decide
+
+/-- a greedy run takes all it can, a lazy one as little as it can: `(N*)(N*?)A` on `CAGAT` gives group 1 = `CAG`
+(the longest prefix still followed by an `A`), group 2 empty -/
+example :
+    let w : Word := [.C,.A,.G,.A,.T].map (fun n => ⟨n, false⟩)
+    let p : Pat := [.gopen, .star .N true, .gclose, .gopen, .star .N false, .gclose, .cls .A]
+    (search p w false).map (·.marks) = some [0, 0, 3, 3, 3, 4] := by
   decide
 
 end Moclo.C16
